@@ -295,7 +295,7 @@ def _m_from_bytes(data, byteorder="big", *, signed=False):
 
 def _m_hex(x):
     if is_sym(x):
-        raise SxUnsupported("hex() of a symbolic value")
+        return "0x<sym>"    # rendering for messages only: int("0x<sym>", 16) raises, it can never be read back as a number
     return hex(x)
 
 
